@@ -40,7 +40,7 @@ pub enum CancelOf {
 
 #[derive(Clone, Debug, Serialize, Deserialize)]
 pub enum PeerKind {
-    /// `sampled` is ignored when `untraced` (all-zero trace context, as an untraced client sends)
+    /// `untraced`: all-zero trace id; with `sampled` false the whole trace context is the default one (as an untraced client sends), with `sampled` true span id and sampling decision are kept
     Req { id: IdRef, deadline: Dl, sampled: bool, #[serde(default)] untraced: bool },
     Cancel { of: CancelOf },
     /// The peer ends the inbound side here (nothing is sent afterwards).
@@ -179,9 +179,42 @@ fn gen_parked(rng: &mut Rng) -> ServerScn {
     }
 }
 
+/// A flood at the limit: L requests whose handlers keep running, then dozens more in one burst
+/// over an always-ready transport (every excess request must be refused, however many of them
+/// one poll of the channel gets to read).
+fn gen_flood(rng: &mut Rng) -> ServerScn {
+    let limit = *rng.pick(&[0usize, 1, 1, 2]);
+    let n = rng.range(36, 90) as usize;
+    let mut script = Vec::new();
+    let mut handlers = Vec::new();
+    for i in 0..limit + n {
+        script.push(PeerAct { delay_ms: 0, kind: PeerKind::Req { id: IdRef::Fresh, deadline: Dl::Ms(10_000), sampled: false, untraced: false } });
+        let steps = if i < limit { vec![HStep::Never] } else { vec![] };
+        handlers.push(HandlerPlan { steps, err: false, run: RunMode::Execute });
+    }
+    ServerScn {
+        resp_buf: 100,
+        limit: Some(limit),
+        link: LinkCfg { cap: 0, coupled: true, sticky: true, faults: vec![] },
+        stalls: vec![],
+        script,
+        handlers,
+        eof_at_end: true,
+        drop_stream_at: None,
+        preempt_permille: 0,
+        subscriber: 0,
+        long: false,
+        spurious_permille: 0,
+        jumps: vec![],
+    }
+}
+
 pub fn gen(rng: &mut Rng, focus: SFocus) -> ServerScn {
     if focus == SFocus::Parked {
         return gen_parked(rng);
+    }
+    if focus == SFocus::Limit && rng.chance(40) {
+        return gen_flood(rng);
     }
     let n = rng.range(1, if focus == SFocus::Limit { 8 } else { 6 }) as usize;
     let small = [1usize, 2, 3];
@@ -334,11 +367,11 @@ pub fn gen(rng: &mut Rng, focus: SFocus) -> ServerScn {
             // a request may also be the first thing that happens on a connection that has been
             // quiet for months (nothing has advanced the timer queue), or arrive while an
             // earlier request's timer has been pending for more than a year
-            let days = *rng.pick(&[0u64, 0, 0, 70, 200, 380, 440, 600]);
+            let days = *rng.pick(&[0u64, 0, 0, 70, 200, 365, 380, 400, 440, 600]);
             let days = if total_days + days > 700 { 0 } else { days };
             total_days += days;
             a.delay_ms = days * 86_400_000;
-            a.kind = PeerKind::Req { id: IdRef::Fresh, deadline: Dl::Secs(*rng.pick(&[400u64, 700, 1278, 1500, 3650, 10_950]) * 86_400), sampled: false, untraced: false };
+            a.kind = PeerKind::Req { id: IdRef::Fresh, deadline: Dl::Secs(*rng.pick(&[365u64, 400, 400, 700, 1278, 1500, 3650, 10_950]) * 86_400), sampled: false, untraced: false };
         }
         for h in handlers.iter_mut() {
             h.steps = vec![HStep::Never];
@@ -369,7 +402,15 @@ pub fn gen(rng: &mut Rng, focus: SFocus) -> ServerScn {
         subscriber,
         long,
         spurious_permille: if focus == SFocus::General && subscriber == 0 && rng.chance(120) { 100 } else { 0 },
-        jumps: if focus == SFocus::Deadlines && !long && rng.chance(300) { (0..rng.range(1, 2)).map(|_| (rng.range(0, 20), *rng.pick(&[1u64, 3, 10, 40, 200]))).collect() } else { vec![] },
+        jumps: if focus == SFocus::Deadlines && !long && rng.chance(300) {
+            (0..rng.range(1, 2)).map(|_| (rng.range(0, 20), *rng.pick(&[1u64, 3, 10, 40, 200]))).collect()
+        } else if long && rng.chance(300) {
+            // a step of two days across one of the instants at which year-long timers fire:
+            // whatever was due inside it is overdue, not just due, when the endpoint runs again
+            vec![(*rng.pick(&[364u64, 399, 699, 729]) * 86_400_000, 2 * 86_400_000)]
+        } else {
+            vec![]
+        },
     }
 }
 
@@ -801,7 +842,13 @@ pub fn run(scn: &ServerScn, tape: Tape, _logging: bool) -> RunOutput {
                                 continue;
                             };
                             if *untraced {
-                                ctx.trace_context = trace::Context::default();
+                                if *sampled {
+                                    // an all-zero trace id that nevertheless carries a span id and a
+                                    // positive sampling decision (a caller that built its context by hand)
+                                    ctx.trace_context.trace_id = trace::TraceId::from(0u128);
+                                } else {
+                                    ctx.trace_context = trace::Context::default();
+                                }
                                 sim_p.count("probe.untraced_request");
                             }
                             peer_p.push(ClientMessage::Request(Request { context: ctx, id: rid, message: i as u64 }));
